@@ -155,6 +155,7 @@ def run_cases(ctx, mon, ncases, body, wall=None, only_case=None):
     cases = range(ncases) if only_case is None else [only_case]
     # the alarm is a *no progress* watchdog: every returning outermost call and every oracle section re-arms it
     mon.heartbeat = lambda: signal.alarm(CASE_ALARM_S)
+    O.HEARTBEAT = mon.heartbeat
     for case in cases:
         if bud is not None and bud.over():
             ctx.extra['time_capped_at_case'] = case
@@ -193,6 +194,7 @@ def run_cases(ctx, mon, ncases, body, wall=None, only_case=None):
         except Exception:
             ctx.oracle_error('driver case %s' % case)
     mon.heartbeat = None
+    O.HEARTBEAT = None
     signal.alarm(0)
     ctx.history = None
     ctx.case = None
